@@ -384,6 +384,138 @@ def run_native(exe, lines):
     return out
 
 
+# ---------------------------------------------------------------- overlapping calls (linearizability)
+
+def state_key(obs):
+    """final owner sets + running informers (with handlers) of a flat run, from its observations"""
+    if not obs["steps"]:
+        return ("init",)
+    infs = {}
+    for st in obs["steps"]:
+        for e in st["ev"] or []:
+            if e["t"] == "start":
+                infs[e["g"]] = []
+            elif e["t"] == "stop":
+                infs.pop(e["g"], None)
+            elif e["t"] == "add" and e["ok"] and e["g"] in infs:
+                infs[e["g"]].append(e["h"])
+    snap = obs["steps"][-1]["snap"]
+    return (json.dumps(snap), json.dumps(sorted(infs.items())))
+
+
+def prefixes_upto(letters, n):
+    out = [[]]
+    last = [[]]
+    for _ in range(n):
+        last = [p + [x] for p in last for x in letters]
+        out += last
+    return out
+
+
+def overlap_scenarios(run, r, tier):
+    """pairs (quick) / pairs + sampled triples (thorough) of overlapping calls from every distinct state a
+    prefix of state-changing operations reaches"""
+    p6 = [W(o, g) for o in range(2) for g in range(2)] + [F(0), F(1)]
+    pres = prefixes_upto(p6, 2 if tier == "quick" else 4)
+    outs = vlib.run_harness("cache", [scen(p) for p in pres], par=8)
+    states = {}
+    for p, o in zip(pres, outs):
+        if "obs" not in o:
+            run.violation("corr:C12/harness error", {"correspondence": "harness", "scenario": scen(p), "out": o}, False)
+            continue
+        states.setdefault(state_key(o["obs"]), p)          # shortest prefix first
+    reps = list(states.values())
+    a_ops = [x for x in alphabet(with_owners_op=True) if x.get("out") != "del"]
+    b_ops = [x for x in alphabet(with_owners_op=True) if x.get("out", "ok") == "ok"]
+    # how many informer-map / informer calls does A make from each state?  (sequential probe)
+    probes = [(p, a) for p in reps for a in a_ops]
+    pouts = vlib.run_harness("cache", [scen(p + [a]) for p, a in probes], par=8)
+    scs = []
+    for (p, a), o in zip(probes, pouts):
+        if "obs" not in o:
+            continue
+        ncalls = sum(1 for e in o["obs"]["steps"][-1]["ev"] or [] if e["t"] in ("get", "delete", "add"))
+        for k in range(ncalls):
+            for when in ("pre", "post"):
+                for b in b_ops:
+                    scs.append({"handlers": 2, "kinds": 2, "prefix": p, "calls": [a, b], "hook_call": k, "hook_when": when})
+                if tier == "thorough":
+                    for _ in range(12):
+                        scs.append({"handlers": 2, "kinds": 2, "prefix": p, "calls": [a, r.choice(b_ops), r.choice(b_ops)],
+                                    "hook_call": k, "hook_when": when})
+    return scs, len(reps)
+
+
+def c_cobs(o):
+    res = None
+    if o.get("res") is not None:
+        res = c_owners(None if o["res"]["nil"] else o["res"]["owners"])
+    return "CObs %s %s %s" % (ERRS[o["err"]], cL([c_event(e) for e in o["ev"] or []]), cO(res))
+
+
+def lin_term(sc, obs):
+    pre = cL([cP(c_op(op), c_obs(o)) for op, o in zip(sc["prefix"], obs["pre"])])
+    calls = cL([cP(c_op(op), c_cobs(o)) for op, o in zip(sc["calls"], obs["calls"])])
+    snap = cL([cP(cN(g), c_owners(x)) for g, x in enumerate(obs["snap"])])
+    infs = cL([cP(cN(g), c_owners(x)) for g, x in enumerate(obs["informers"])])
+    return "(%s : lin_case)" % cP(cL([cN(h) for h in range(sc["handlers"])]), cL([cN(g) for g in range(sc["kinds"])]),
+                                  pre, calls, snap, infs)
+
+
+def pair_name(sc):
+    return "%s overlapped by %s" % (sc["calls"][0]["op"], "+".join(c["op"] for c in sc["calls"][1:]))
+
+
+def check_overlap(run, scs, fixed_mode):
+    """Runs overlapping-call scenarios on the real Cache and judges them by linearizability inside Coq."""
+    outs = vlib.run_harness("cacheoverlap", scs, par=16)
+    terms, idx = [], []
+    stats = {"cases": 0, "others_returned_inside_window": 0, "others_blocked_until_A_returned": 0, "hook_not_reached": 0}
+    for i, (sc, o) in enumerate(zip(scs, outs)):
+        if "obs" not in o:
+            run.violation("corr:C12/harness error", {"correspondence": "harness (cacheoverlap)", "scenario": sc, "out": o}, False)
+            continue
+        ob = o["obs"]
+        if ob["hung"]:
+            run.violation("C12 overlapping calls deadlock (%s)" % pair_name(sc), {"scenario": sc, "impl": ob}, True)
+            continue
+        errs = [c["err"] for c in ob["calls"]] + [st["err"] for st in ob["pre"]]
+        if any(e not in ERRS for e in errs):
+            run.violation("corr:C12/unexpected error class", {"correspondence": "error classes", "scenario": sc, "impl": ob}, False)
+            continue
+        stats["cases"] += 1
+        if not ob["fired"]:
+            stats["hook_not_reached"] += 1
+        for c in ob["calls"][1:]:
+            stats["others_returned_inside_window" if c["inside"] else "others_blocked_until_A_returned"] += 1
+        terms.append(lin_term(sc, ob))
+        idx.append(i)
+    res, logs = vlib.judge_cases("C12", IMPORTS, "judge_lin", terms, 3, shard=200, tag="lin")
+    for l in logs:
+        run.violation("corr:C12/coq-eval", {"correspondence": "coq evaluation failed", "log": l}, False)
+    for i, v in zip(idx, res):
+        if v is None:
+            continue
+        sc, ob = scs[i], outs[i]["obs"]
+        lin_cur, lin_fix, mon = v
+        lin = lin_fix if fixed_mode else lin_cur
+        rep = {"scenario": sc, "impl": ob, "judge_lin(lin_agree_current,lin_agree_fixed,final_state_monitor)": list(v)}
+        if not mon:
+            if lin_cur and has_start_failure(sc["calls"]):
+                run.violation(IDENT_FC12, rep, True)
+            else:
+                run.violation("C12 overlapping calls leave an informer without owner or an owner without complete "
+                              "informer (%s)" % pair_name(sc), rep, True)
+        elif not lin:
+            rep["correspondence"] = "C12Corr.lin_agree"
+            run.violation("corr:C12/overlapping calls not linearizable (%s)" % pair_name(sc), rep, False)
+        if len(sc["calls"]) >= 2 and any(c["inside"] for c in ob["calls"][1:]):
+            run.classes.add(("overlap", sc["calls"][0]["op"], sc["calls"][0].get("out", ""), sc["hook_call"], sc["hook_when"],
+                             tuple(c["op"] for c in sc["calls"][1:]), tuple(c["err"] for c in ob["calls"])))
+    run.cov["evaluations"] += stats["cases"]
+    return stats
+
+
 # ---------------------------------------------------------------- concurrent callers
 
 def race_scenarios(r, n):
@@ -581,13 +713,20 @@ def check(run, tier, seed, replay=None):
         check_race(run, [json.load(open(replay))["replay"]["scenario"]] * 5, fixed_mode)
         run.cov["rule"] = "replay of one recorded concurrent scenario, 5 runs"
         return
+    if replay and "calls" in json.load(open(replay))["replay"].get("scenario", {}):
+        check_overlap(run, [json.load(open(replay))["replay"]["scenario"]] * 3, fixed_mode)
+        run.cov["rule"] = "replay of one recorded overlapping-call scenario, 3 runs"
+        return
     if replay:
         scs = [json.load(open(replay))["replay"]["scenario"]]
     else:
         a = alphabet(with_owners_op=True)
         scs = corpus() + [scen([x]) for x in a] + [scen([x, y]) for x in a for y in a]
         a28 = alphabet()
-        scs += [scen([x, y, z]) for x in a28 for y in a28 for z in a28]
+        if tier == "quick":      # quick: a sample of the length-3 sequences inside Coq (all of them are in the sweep below)
+            scs += [scen([r.choice(a28) for _ in range(3)]) for _ in range(4000)]
+        else:
+            scs += [scen([x, y, z]) for x in a28 for y in a28 for z in a28]
         scs += random_scenarios(r, 400 if tier == "quick" else 4000, 40)
     flat = judge_flat(run, scs, "flat")
     for sc, obs, v in flat:
@@ -661,7 +800,15 @@ def check(run, tier, seed, replay=None):
     run.cov["exhaustive"] = True
     t_sweep = time.time() - t1
 
-    # 3. concurrent callers under the race detector
+    # 3. overlapping calls, judged by linearizability
+    t3 = time.time()
+    oscs, nstates = overlap_scenarios(run, r, tier)
+    ostats = check_overlap(run, oscs, fixed_mode)
+    ostats["pre_states"] = nstates
+    run.cov["overlapping_calls"] = ostats
+    t_overlap = time.time() - t3
+
+    # 4. concurrent callers under the race detector
     t_race = 0.0
     if tier == "thorough":
         t2 = time.time()
@@ -674,16 +821,21 @@ def check(run, tier, seed, replay=None):
 
     run.cov["rule"] = (
         "real dynamiccache.Cache + scripted informer map + real cache sources; corpus (incl. the F-C12 witness), all "
-        "sequences of length <= 2 over 30 operations and of length 3 over 28 operations, seeded random sequences of length <= 40 over <= 3 owners x 3 kinds x "
+        "sequences of length <= 2 over 30 operations and of length 3 over 28 operations (quick: 4000 sampled), seeded random sequences of length <= 40 over <= 3 owners x 3 kinds x "
         "<= 3 handlers: judged inside Coq; all sequences of length %s over (owners, kinds) = %s x {ok, Get fails "
         "early/after start, handler 0/1 registration fails, Delete fails} (OwnersForGKV of every kind is called after "
         "every operation; Free visits kinds in Go's map order, both branches are followed as they occur): "
         "judged by the extracted `judge`, every non-fine verdict class re-judged inside Coq; non-trivial = a Watch "
         "succeeded and a later Free/Get/List reached the cache; distinct = sequence of (operation, outcome, error class, "
-        "number of informer-map events), counted over the cases judged inside Coq only" %
+        "number of informer-map events), counted over the cases judged inside Coq only; overlapping calls: from every "
+        "distinct state reached by <= 2 (quick) / <= 4 (thorough) Watch/Free calls, call A (any operation and outcome except "
+        "Delete failure) is held before/after the effect of each of its informer-map / AddEventHandler calls while call B "
+        "(thorough: also B and C) is started on another goroutine and returns or blocks; the joint outcome is judged inside "
+        "Coq by lin_agree (some serial order of the model) and the final-state monitor; distinct overlap classes = (A, hook, "
+        "others, error classes) of cases in which another call returned while A was held" %
         ("/".join(str(c[2]) for c in configs), "/".join("%dx%d" % (c[0], c[1]) for c in configs)))
     run.cov["trusted_base"] = run.cov.get("trusted_base", []) + [
         "exhaustive sweeps: Coq extraction to OCaml of C12Corr.judge (no Extract Constant/Inductive directives), ocamlopt, "
         "harness/ocaml/c12_driver.ml (decoding); not-fine classes and a random sample are re-evaluated by vm_compute",
         "Go harness mode_cache.go (scripted informer map, handler identification by probe event), Python driver"]
-    run.notes.append("timings: flat %.0fs, sweep %.0fs, race %.0fs" % (t_flat, t_sweep, t_race))
+    run.notes.append("timings: flat %.0fs, sweep %.0fs, overlap %.0fs, race %.0fs" % (t_flat, t_sweep, t_overlap, t_race))
